@@ -215,3 +215,6 @@ theorem numImpl_divided_by : lookupImpl Num.impls (Num.bn "divided_by") = some N
 theorem numImpl_modulo : lookupImpl Num.impls (Num.bn "modulo") = some Num.modulo := by
   with_unfolding_all rfl
 
+
+/-- every filter body of `Num.impls` is registered in `stdFilters` -/
+theorem num_impls_registered : Num.impls.all (fun p => (lookupSig p.1).isSome) = true := by decide +kernel
